@@ -1,6 +1,7 @@
 from copy import deepcopy
 from itertools import islice
 from collections import defaultdict, Counter
+from collections.abc import Mapping
 from typing import Any, Iterable, Sequence, Optional, Tuple
 
 import coba.random as coba_random
@@ -185,7 +186,9 @@ class ProcessTasks(Filter[Iterable[Task], Iterable[Any]]):
                         old_random = coba_random._random
                         try:
                             coba_random.seed(CobaContext.store.get("experiment_seed"))
-                            rows = list(SafeEvaluator(val).evaluate(env,lrn))
+                            rows = SafeEvaluator(val).evaluate(env,lrn)
+                            #an evaluator may return a single mapping rather than an iterable of them (list would give us its keys)
+                            rows = [rows] if isinstance(rows,Mapping) else list(rows)
                         finally:
                             coba_random._random = old_random
                         yield ["T4", (env_id, lrn_id, val_id), rows]
